@@ -1,6 +1,7 @@
 """K result_ownership: every impl of runtime/src/result.rs — exactly-once drop, arm/flag agreement, wire layout."""
 import os
 from common import VERIF, read
+from kunit import add_end_covers
 
 NAME = "result_ownership"
 ENGINE = "kani"
@@ -46,7 +47,7 @@ _H = [
 
 
 def splice(sess, tier):
-    sess.append(FILE, read(os.path.join(VERIF, "units/harness/result_ownership.rs")))
+    sess.append(FILE, add_end_covers(read(os.path.join(VERIF, "units/harness/result_ownership.rs"))))
 
 
 def harnesses(tier, prop=None):
@@ -56,7 +57,7 @@ def harnesses(tier, prop=None):
             continue
         out.append({"name": "verif_result::" + n, "obligation": ob, "functions": fns, "mode": "complete",
                     "bound": "none (loop-free, full-domain symbolic payload ids / arms; payload types as instantiated)",
-                    "covers": covers, "timeout": 600})
+                    "covers": (covers or 0) + 1, "timeout": 600})
     return out
 
 
